@@ -28,6 +28,7 @@ RULE = (
     "storage with no other live tensor (leaves, other grads, intermediates, the aggregator's input and output); "
     "(e) a repeated call returns bitwise the same aggregated vector. Non-trivial = a history containing both an "
     "accumulation onto an existing non-zero .grad and a creation from None. Distinct = distinct (program, history)."
+    " Part `aliased_grads`: two requested tensors whose pre-existing .grad are the same tensor / overlapping / adjacent views of one buffer (backward and mtl_backward): the buffer must equal initial + both slices of the returned vector and both .grad must still live in it."
 )
 ASSUMPTIONS = ["graphs without retain_grad() tensors (documented limitation); retain_graph=True so the history can continue"]
 LEVEL_TEXT = (
